@@ -413,13 +413,18 @@ func (c *Ctx) checkTraces(s *State, env *Env, fc *FuncContract, trace []Event, l
 			n := 0
 			var onT string
 			if tr.On != nil {
+				n0 := len(env.errs)
 				ov := env.eval(tr.On)
-				if sc, ok := ov.v.(Sc); ok {
+				if len(env.errs) > n0 {
+					// the variable naming the channel / receiver does not exist on this path (it is assigned
+					// later): no event of this path can be on it
+					env.errs = env.errs[:n0]
+					onT = "\x00nothing"
+				} else if sc, ok := ov.v.(Sc); ok {
 					onT = sc.T.S
 				} else if iv, ok := ov.v.(If); ok {
 					onT = iv.Val.S
 				}
-				c.reportEvalErrors(env, fc, tr.Src)
 			}
 			for _, ev := range trace {
 				if !matchEvent(tr.A, ev.Name) {
@@ -465,6 +470,11 @@ func (c *Ctx) checkTraces(s *State, env *Env, fc *FuncContract, trace []Event, l
 		violated := false
 		detail := ""
 		if tr.Where != nil && (tr.Kind == "exactly" || tr.Kind == "atmost" || tr.Kind == "atleast") {
+			if cond.S == "false" {
+				// the rule does not apply to this path (its `when` is decided false while building it)
+				c.oblige(s, "trace", name, True, "", "trace rule `"+tr.Src+"` (not applicable on this path)", props)
+				continue
+			}
 			// symbolic count of the events whose operands satisfy the filter
 			cnt := IntLit(0)
 			bad := false
